@@ -1,0 +1,84 @@
+//go:build verif
+
+package simhook
+
+import "context"
+
+// Enabled reports whether the simulation hooks are compiled in.
+const Enabled = true
+
+// Handler is implemented by the simulator.
+type Handler interface {
+	// Step is called at the top of every iteration of the evaluation loop.
+	Step(ctx context.Context, ast, env interface{})
+	// Yield is a possible preemption point inside a named window.
+	Yield(point string, obj interface{})
+	// Await is called before a lock acquisition; it returns when ready()
+	// holds and the caller may take the lock without blocking.
+	Await(point string, obj interface{}, ready func() bool)
+	// BeforeBlock is called before a real blocking select; the returned
+	// handle is passed to AfterBlock once the select has fired.
+	BeforeBlock(point string, obj interface{}) interface{}
+	AfterBlock(handle interface{}, which string)
+	// Spawn is called by the parent before "go"; the returned handle is
+	// passed to TaskStart/TaskEnd by the new goroutine.
+	Spawn(obj interface{}) interface{}
+	TaskStart(handle interface{})
+	TaskEnd(handle interface{})
+}
+
+var handler Handler
+
+// Install sets (or with nil removes) the simulator's handler. It must not be
+// called while hooked code is running.
+func Install(h Handler) { handler = h }
+
+func Step(ctx context.Context, ast, env interface{}) {
+	if h := handler; h != nil {
+		h.Step(ctx, ast, env)
+	}
+}
+
+func Yield(point string, obj interface{}) {
+	if h := handler; h != nil {
+		h.Yield(point, obj)
+	}
+}
+
+func Await(point string, obj interface{}, ready func() bool) {
+	if h := handler; h != nil {
+		h.Await(point, obj, ready)
+	}
+}
+
+func BeforeBlock(point string, obj interface{}) interface{} {
+	if h := handler; h != nil {
+		return h.BeforeBlock(point, obj)
+	}
+	return nil
+}
+
+func AfterBlock(handle interface{}, which string) {
+	if h := handler; h != nil {
+		h.AfterBlock(handle, which)
+	}
+}
+
+func Spawn(obj interface{}) interface{} {
+	if h := handler; h != nil {
+		return h.Spawn(obj)
+	}
+	return nil
+}
+
+func TaskStart(handle interface{}) {
+	if h := handler; h != nil {
+		h.TaskStart(handle)
+	}
+}
+
+func TaskEnd(handle interface{}) {
+	if h := handler; h != nil {
+		h.TaskEnd(handle)
+	}
+}
